@@ -36,8 +36,8 @@ type sInt int64
 
 func (i sInt) String() string { return strconv.FormatInt(int64(i), 10) }
 
-func I(i int) Sx        { return sInt(i) }
-func S(s string) Sx     { return SB([]byte(s)) }
+func I(i int) Sx    { return sInt(i) }
+func S(s string) Sx { return SB([]byte(s)) }
 func Bool(b bool) Sx {
 	if b {
 		return sInt(1)
